@@ -99,7 +99,7 @@ def printFixed (a : Ast) (t : BasicType) (n : Nat) (r : TypeResolve) : G FieldDe
   | .opaque => .ok (.fixedBytes n)
   | .string => .panicAt "from.rs" "unexpected fixed length string"
   | _ =>
-    if n = 0 then .ok (.fixedArr 0 .opaque)        -- an empty array literal: nothing is printed for the element
+    if n = 0 then .ok (.fixedArr 0 (.prim .u32))   -- an empty array literal: nothing is printed for the element
     else (decodeBasic a t r).bind fun b => .ok (.fixedArr n b)
 
 /-- the closure `print_variable` -/
